@@ -318,7 +318,16 @@ impl PropCase for Probe {
         if matches!(self.pos, Pos::Scaler | Pos::Status | Pos::Time) && self.lead.first() == Some(&0x01) {
             return Ok(());
         }
-        let field = complete_field(&self.lead);
+        let mut field = complete_field(&self.lead);
+        if self.pos == Pos::ListLen {
+            // only the list TLF itself is under test here: bytes of the lead behind a complete list TLF would be
+            // junk in front of the entries (the probe then coincides with the one for the shorter lead)
+            if let Ok(t) = ref_tlf(&field) {
+                if t.ty == RTy::List {
+                    field.truncate(t.size);
+                }
+            }
+        }
         let (x, off) = skeleton(self.pos, &field);
         let want = expect(self.pos, &x, off);
         let got = observe(self.pos, &x);
